@@ -143,7 +143,7 @@ static Verdict exec_badcall(const Case &c) {
   close(rp[0]);
   int st = 0;
   waitpid(pid, &st, 0);
-  bool san = err.find("AddressSanitizer") != std::string::npos || err.find("runtime error:") != std::string::npos;
+  bool san = err.find("ERROR: AddressSanitizer") != std::string::npos || err.find("runtime error:") != std::string::npos;
   std::string where = n + " with an incompatible dimension (a=" + std::to_string(a) + " b=" + std::to_string(b) + " c=" + std::to_string(cc) + " d=" + std::to_string(d) + "): ";
   if (san)
     v.fail(where + "sanitizer report: " + err.substr(0, 300));
